@@ -101,3 +101,104 @@ Example c12_witness :
   ([0; 1; 2; 1; 0; 0], [OOk 2; OOk 9; OOk 2; OOk 2; OOk 2; OOk 0],
    [(1, [2;1;1;1;1;1;1;1;1]%N); (3, [1;1;10;3;1;10]%N); (5, [2;2;10;1;2;10]%N)], [[]; []; []]).
 Proof. vm_compute. reflexivity. Qed.
+
+(* ==== added after the audit of 2026-10-02 (selftest/audit/REPORT-2026-10-02.md) ==== *)
+Require Import Cadence.Proofs.AuditM2.
+
+(* ---- A.13: the executed roots Merge.conc_sink and Merge.results_of ---- *)
+
+(* what conc_sink (the function the harness runs) computes: the interleaving chosen by the observed
+   lock order, and the whole life - construction, the interleaved calls, the final drop - of the
+   sequential writer (newline, the configured capacity or 512) on that interleaving.  Hence every
+   theorem above about [run c e script (map snd l)] is a theorem about conc_sink. *)
+Theorem c12_conc_sink : forall co script (ps : list (list op)) sched,
+  conc_sink co script ps sched =
+  (merge_by sched ps,
+   fst (run (match co with Some n => n | None => default_capacity end) newline script
+            (map snd (merge_by sched ps))),
+   snd (run (match co with Some n => n | None => default_capacity end) newline script
+            (map snd (merge_by sched ps)))).
+Proof. exact conc_sink_run. Qed.
+
+Theorem c12_conc_sink_spec : forall co script (ps : list (list op)) sched l rs s,
+  conc_sink co script ps sched = (l, rs, s) <->
+  l = merge_by sched ps /\
+  run (match co with Some n => n | None => default_capacity end) newline script (map snd l) = (rs, s).
+Proof. exact conc_sink_spec. Qed.
+
+(* results_of hands every thread the results of exactly its own calls, in its program order: for a
+   complete interleaving thread [t] gets as many results as its program has calls; the call at
+   position [i] of the interleaving, made by [t], is [t]'s call number k = (number of [t]'s calls
+   before position i) and [t]'s k-th result is the i-th result of the run; and conversely every
+   result [t] gets is the result of one of its calls (nothing from another thread, nothing twice) *)
+Theorem c12_results_per_thread : forall (ps : list (list op)) l rs t,
+  is_merge ps l -> length rs = length l ->
+  length (results_of t l rs) = length (nth t ps []) /\
+  (forall i o, nth_error l i = Some (t, o) ->
+     let k := length (proj t (firstn i l)) in
+     nth_error (nth t ps []) k = Some o /\ nth_error (results_of t l rs) k = nth_error rs i) /\
+  (forall k x, nth_error (results_of t l rs) k = Some x ->
+     exists i o, nth_error l i = Some (t, o) /\ k = length (proj t (firstn i l)) /\ nth_error rs i = Some x).
+Proof. exact results_per_thread. Qed.
+
+(* on the executed root, for ANY schedule (complete or not) and ANY fault script: there is one result
+   per call of the interleaving; what thread [t] has done so far, followed by what it has left, is its
+   program; and the results handed to [t] are, call by call, admissible for [t]'s calls - Ok with the
+   metric's byte length for an emit, Ok 0 for a flush, or an error; never a panic *)
+Theorem c12_conc_sink_results : forall co script (ps : list (list op)) sched l rs s t,
+  conc_sink co script ps sched = (l, rs, s) ->
+  length rs = length l /\
+  proj t l ++ nth t (rest_by sched ps) [] = nth t ps [] /\
+  Forall2 (fun o x => match o, x with
+                      | Emit m, OOk k => k = length m
+                      | Flush, OOk k => k = 0
+                      | _, OPanic => False
+                      | _, _ => True
+                      end) (proj t l) (results_of t l rs).
+Proof. exact conc_sink_results. Qed.
+
+(* fault-free: every thread sees exactly Ok(byte length) for each of its emits, Ok for each flush *)
+Theorem c12_conc_sink_results_ok : forall co (ps : list (list op)) sched l rs s t,
+  conc_sink co [] ps sched = (l, rs, s) ->
+  results_of t l rs = map (fun o => OOk (match o with Emit m => length m | Flush => 0 end)) (proj t l).
+Proof. exact conc_sink_results_ok. Qed.
+
+(* c12_once under ANY fault script, in ledger form, for every interleaving: the metrics written in
+   whole lines, followed by those still buffered after the drop (a failed last write keeps them),
+   are exactly the acknowledged (emit answered Ok) fitting metrics, in order; those written alone are
+   exactly the acknowledged oversized ones; no identity is written twice; the acknowledged metrics
+   are a sub-sequence of the emitted ones; every result is admissible.  Zero-length lines (empty
+   metric with empty terminator) are outside the identity statement, as in C06/C07. *)
+Theorem c12_once_faults : forall (ps : list (list op)) l c e script rs s,
+  is_merge ps l ->
+  run c e script (map snd l) = (rs, s) ->
+  length rs = length l /\
+  Forall2 res_ok (map snd l) rs /\
+  filter (nzb e) (sentL (lg s) ++ bids s) = filter (nzb e) (fit_ids c e (acked 0 (map snd l) rs)) /\
+  sentA (lg s) = big_ids c e (acked 0 (map snd l) rs) /\
+  NoDup (filter (nzb e) (sentL (lg s))) /\ NoDup (sentA (lg s)) /\
+  NoDup (map fst (acked 0 (map snd l) rs)) /\
+  sublist (acked 0 (map snd l) rs) (emitted 0 (map snd l)).
+Proof. exact once_faults. Qed.
+
+(* the same ledger on the executed root, for any schedule *)
+Theorem c12_conc_sink_once_faults : forall co script (ps : list (list op)) sched l rs s,
+  conc_sink co script ps sched = (l, rs, s) ->
+  let c := match co with Some n => n | None => default_capacity end in
+  l = merge_by sched ps /\
+  filter (nzb newline) (sentL (lg s) ++ bids s) = filter (nzb newline) (fit_ids c newline (acked 0 (map snd l) rs)) /\
+  sentA (lg s) = big_ids c newline (acked 0 (map snd l) rs) /\
+  NoDup (filter (nzb newline) (sentL (lg s))) /\ NoDup (sentA (lg s)).
+Proof. exact conc_sink_once_faults. Qed.
+
+(* non-vacuity: the programs of c12_witness with the second underlying write failing: thread 1's
+   second emit gets the error (and is not written), every thread gets its own results in its order *)
+Example c12_conc_sink_faults_witness :
+  let ps := [[Emit [1;1]; Emit [1;2]; Flush]; [Emit [2;1;1;1;1;1;1;1;1]; Emit [2;2]]; [Emit [3;1]]]%N in
+  let sched := [0; 1; 2; 1; 0; 0; 5; 1] in
+  let '(l, rs, s) := conc_sink (Some 8) [WOk; WErr 7]%N ps sched in
+  (map fst l, rs, results_of 0 l rs, results_of 1 l rs, results_of 2 l rs,
+   map fst (sentL (lg s)), map fst (bids s)) =
+  ([0; 1; 2; 1; 0; 0], [OOk 2; OOk 9; OOk 2; OErr 7%N; OOk 2; OOk 0],
+   [OOk 2; OOk 2; OOk 0], [OOk 9; OErr 7%N], [OOk 2], [0; 2; 4], []).
+Proof. vm_compute. reflexivity. Qed.
